@@ -8,18 +8,18 @@ namespace WowSrp
 
 /-- C03: x = H(salt | H(U ":" P)) -/
 theorem C03_source_layout_x : Gen.layoutCalculateX =
-    [["username.as_ref()", "\":\"", "password.as_ref()"], ["salt.as_le_bytes()", "p"]] := by decide
+    [["username.as_ref()", "\":\"", "password.as_ref()"], ["salt.as_le_bytes()", "p"], ["ctors:Sha1::new,Sha1::new", "methods:chain_update,chain_update,chain_update,chain_update,chain_update,finalize,finalize", "control:", "rebound:", "tail:Sha1Hash::from_le_bytes(x.into())"]] := by decide +kernel
 
 /-- C03: u = H(A | B) -/
 theorem C03_source_layout_u : Gen.layoutCalculateU =
-    [["client_public_key.as_le_bytes()", "server_public_key.as_le_bytes()"]] := by decide
+    [["client_public_key.as_le_bytes()", "server_public_key.as_le_bytes()"], ["ctors:Sha1::new", "methods:chain_update,chain_update,finalize", "control:", "rebound:", "tail:Sha1Hash::from_le_bytes(s.into())"]] := by decide +kernel
 
 /-- C03: M2 = H(A | M1 | K) -/
 theorem C03_source_layout_M2 : Gen.layoutServerProof =
-    [["client_public_key.as_le_bytes()", "client_proof.as_le_bytes()", "session_key.as_le_bytes()"]] := by decide
+    [["client_public_key.as_le_bytes()", "client_proof.as_le_bytes()", "session_key.as_le_bytes()"], ["ctors:Sha1::new", "methods:chain_update,chain_update,chain_update,finalize", "control:", "rebound:", "tail:Proof::from_le_bytes(s.into())"]] := by decide +kernel
 
 /-- C03: xor hash = H(N) xor H(g) -/
 theorem C03_source_layout_xor : Gen.layoutXorHash =
-    [["large_safe_prime.as_le_bytes()"], ["[generator.as_u8()]"]] := by decide
+    [["large_safe_prime.as_le_bytes()"], ["[generator.as_u8()]"], ["ctors:Sha1::new,Sha1::new", "methods:chain_update,chain_update,finalize,finalize", "control:for", "rebound:", "tail:}Sha1Hash::from_le_bytes(xor_hash)"]] := by decide +kernel
 
 end WowSrp
